@@ -767,6 +767,9 @@ class Fn:
                     elif k == "agg":
                         tag = rv.get("adt") or rv.get("def") or rv["agg"]
                         fsel = None
+                        if node["pl"]["p"] == [] and rv.get("variant") and proj and isinstance(proj[0], dict) and "dc" in proj[0] and proj[0]["dc"] is not None \
+                                and proj[0]["dc"] != rv["variant"]:
+                            continue    # `(x as Ok).0` never reads a value built as `Err(..)`
                         if node["pl"]["p"] == []:
                             for e in proj:
                                 if isinstance(e, dict) and "f" in e:
